@@ -63,6 +63,10 @@ var c15Shapes = map[string][2]string{
 	"fifteen": {":irc.example 005 a1 a2 a3 a4 a5 a6 a7 a8 a9 a10 a11 a12 a13 a14 :are supported", ":irc.example 005 b1 b2 b3 b4 b5 b6 b7 b8 b9 b10 b11 b12 b13 b14 :are supported"},
 	"ctcp":    {":o!u@h PRIVMSG me :\x01VERSION\x01", ":o!u@h PRIVMSG me :\x01PING 12345\x01"},
 	"join":    {":me!ident@host JOIN #x", ":a!u@h JOIN #x"},
+	// an empty tag section (a non-nil, empty tag map), and 15 parameters of which the second is a CTCP payload
+	// (the parser prepends the CTCP verb: 16 arguments)
+	"emptytags": {"@ :o!u@h PRIVMSG #c :hi", "@ :o!u@h PRIVMSG #c :again"},
+	"sixteen":   {":o!u@h PRIVMSG me \x01VERSION\x01 a3 a4 a5 a6 a7 a8 a9 a10 a11 a12 a13 a14 :last one", ":o!u@h PRIVMSG me \x01FINGER\x01 b3 b4 b5 b6 b7 b8 b9 b10 b11 b12 b13 b14 :last two"},
 }
 
 func c15Scenario(p c15Params) *explore.Scenario {
@@ -81,6 +85,12 @@ func c15Scenario(p c15Params) *explore.Scenario {
 		verb = l.Cmd
 	}
 	sc.Main = func(env *vx.Env) {
+		type kept struct {
+			hid  string
+			line *client.Line
+			mine string
+		}
+		var retained []kept // lines handlers keep after returning: a later invocation must not touch them either
 		c := NewClient("me", func(cfg *client.Config) { cfg.Version = "verif-test 1.0" })
 		if p.Tracking {
 			c.EnableStateTracking()
@@ -100,6 +110,7 @@ func c15Scenario(p c15Params) *explore.Scenario {
 				vx.Yield()
 				again := lineImage(line)
 				vx.Observe("ev", fmt.Sprintf("reread %s same=%v", hid, mine == again))
+				retained = append(retained, kept{hid, line, mine})
 			}
 		}
 		for i := 0; i < p.FG; i++ {
@@ -116,6 +127,14 @@ func c15Scenario(p c15Params) *explore.Scenario {
 		vx.Quiesce()
 		vc.SendLines(raws[0], raws[1])
 		vx.Quiesce()
+		// a third event of the same kind after everybody has returned, then look at the retained lines again
+		vc.SendLines(raws[0])
+		vx.Quiesce()
+		for _, k := range retained {
+			if lineImage(k.line) != k.mine {
+				vx.Observe("ev", fmt.Sprintf("late %s changed-after-return", k.hid))
+			}
+		}
 		vc.EOF()
 		vx.Quiesce()
 	}
@@ -137,13 +156,15 @@ func c15Scenario(p c15Params) *explore.Scenario {
 				if f[2] != expect[raws[ev]] {
 					fs = append(fs, explore.Finding{Oracle: "line-differs-at-entry", Msg: fmt.Sprintf("handler %s received a line that differs from the parsed event: got %s, expected %s", f[1], f[2], expect[raws[ev]])})
 				}
+			case "late":
+				fs = append(fs, explore.Finding{Oracle: "line-changed-after-handler-returned", Msg: fmt.Sprintf("handler %s kept its line; a later invocation changed it", f[1])})
 			case "reread":
 				if f[2] != "same=true" {
 					fs = append(fs, explore.Finding{Oracle: "line-changed-under-handler", Msg: fmt.Sprintf("handler %s: the line it had edited changed while it was not looking (shared storage)", f[1])})
 				}
 			}
 		}
-		if want := 2 * (p.FG + p.BG); entries != want {
+		if want := 3 * (p.FG + p.BG); entries != want {
 			fs = append(fs, explore.Finding{Oracle: "delivery-count", Msg: fmt.Sprintf("%d handler invocations, expected %d", entries, want)})
 		}
 		// built-in handlers must have acted on the original line
@@ -175,7 +196,7 @@ func init() {
 			var jobs []Job
 			type hc struct{ fg, bg int }
 			hcs := []hc{{1, 0}, {2, 0}, {2, 1}, {1, 2}, {3, 2}}
-			shapes := []string{"ping", "tags", "noargs", "onearg", "twoargs", "fifteen", "ctcp", "join"}
+			shapes := []string{"ping", "tags", "noargs", "onearg", "twoargs", "fifteen", "ctcp", "join", "emptytags", "sixteen"}
 			for _, sh := range shapes {
 				for _, h := range hcs {
 					if tier != "thorough" && h.fg+h.bg >= 5 && sh != "tags" && sh != "ping" {
